@@ -61,8 +61,11 @@ type vWriteRun struct {
 	cur               *vSession
 	done              []*vSession
 	lastDir           string
-	extTick, dropTick chan time.Time  // hand-fired periodic ticks
-	stopFaultArmed    bool            // break the experiment-state file just before the next STOP of an active session
+	extTick, dropTick chan time.Time // hand-fired periodic ticks
+	stopFaultArmed    bool           // break the experiment-state file just before the next STOP of an active session
+	startFaultArmed   bool           // the next START that would succeed finds its experiment-state file uncreatable
+	startFaultPlanted bool
+	startFaults       int             // how many START faults this history may still inject
 	gapMode           bool            // base path pre-populated with run directories (with holes) of today
 	preDirs           map[string]bool // directories that existed before the request being applied
 	hist              []string
@@ -74,6 +77,9 @@ type vWriteRun struct {
 func vNewWriteRun(c *vCase, variety bool) *vWriteRun {
 	r := c.R
 	w := &vWriteRun{c: c, multi: variety, stopFaultArmed: c.Idx%5 == 3}
+	if c.Idx%3 == 1 {
+		w.startFaults = 2
+	}
 	w.nchan = 2 + r.Intn(4)
 	w.npre = 4 + r.Intn(12)
 	w.nsamp = w.npre + 4 + r.Intn(24)
@@ -298,6 +304,7 @@ func (w *vWriteRun) request(req string, l22, l3, of bool) bool {
 		}
 	}
 	wantErr := false
+	startFault := false
 	kind := "garbage"
 	label := ""
 	switch {
@@ -327,6 +334,12 @@ func (w *vWriteRun) request(req string, l22, l3, of bool) bool {
 		}
 		if m.active || !(l22 || l3 || of) || (of && !anyProj) {
 			wantErr = true
+		} else if w.startFaults > 0 && vChance(c.R, 0.15) {
+			// single I/O failure inside START: the request must be answered with an error and change nothing
+			w.startFaults--
+			w.startFaultArmed, w.startFaultPlanted = true, false
+			wantErr = true
+			startFault = true
 		} else {
 			m.active, m.paused = true, false
 			m.ljh22, m.ljh3, m.of = l22, l3, of
@@ -348,8 +361,20 @@ func (w *vWriteRun) request(req string, l22, l3, of bool) bool {
 		desc += "[state file broken]"
 		c.Cov("stops_with_io_fault", 1)
 	}
+	if startFault {
+		desc += "[state file uncreatable]"
+	}
 	w.hist = append(w.hist, desc)
 	err := ds.WriteControl(cfg)
+	if startFault {
+		w.startFaultArmed = false
+		if !w.startFaultPlanted {
+			c.Inconclusive("harness", "the START fault could not be planted (hook point write.start.dirmade not reached)")
+			return false
+		}
+		w.gapMode = true // the failed START has used up a directory number
+		c.Cov("starts_with_io_fault", 1)
+	}
 	if faulted {
 		if err != nil {
 			c.Cov("stops_with_io_fault_reported", 1)
@@ -815,6 +840,28 @@ func vRunWriteHistory(c *vCase, prop string) {
 		return
 	}
 	defer w.f.close()
+	// I/O fault at START: when armed, the experiment-state file of the run being started is made uncreatable
+	// (a directory is put in its place right after the run directory has been made)
+	verifInstall(&verifHandlers{Point: func(name string) {
+		if name != "write.start.dirmade" || !w.startFaultArmed {
+			return
+		}
+		w.startFaultArmed = false
+		// the run directory START has just made: the one that was not there before the request
+		days, _ := os.ReadDir(w.base)
+		for _, d := range days {
+			runs, _ := os.ReadDir(filepath.Join(w.base, d.Name()))
+			for _, rd := range runs {
+				dir := filepath.Join(w.base, d.Name(), rd.Name())
+				if rd.IsDir() && len(rd.Name()) == 4 && !w.preDirs[dir] {
+					if os.MkdirAll(filepath.Join(dir, fmt.Sprintf("%s_run%s_experiment_state.txt", d.Name(), rd.Name())), 0o755) == nil {
+						w.startFaultPlanted = true
+					}
+				}
+			}
+		}
+	}})
+	defer verifInstall(nil)
 	nsteps := 5 + r.Intn(21)
 	if prop == "C20" {
 		nsteps = 5 + r.Intn(56)
